@@ -104,6 +104,41 @@ def drain_case(args):
     return r
 
 
+def lockstep_case(args):
+    """a component that emits a parameter and a file in lock-step; the files feed the process that is run, the parameters go
+    nowhere (Run) or to a process outside the closure (RunTo): the unconsumed parameter port has to be drained while the
+    files flow, for streams longer than the buffer"""
+    seed, i = args
+    rng = random.Random(seed * 198491347 + i)
+    sp = t3.Spec(maxtasks=rng.randint(1, 3), bufsize=rng.choice([1, 2, 3]))
+    n = sp.bufsize + rng.randint(3, 8)
+    g = sp.raw("COMP pairgen %s %d" % (vlib.hx("gen"), n))
+    u = sp.proc(t3.Proc("use", kind="cattok", ins=[("a", [(g, "out")])], outs=[("o", "{i:a}.use")]))
+    runto = (i % 2 == 1)
+    if runto:
+        sp.proc(t3.Proc("other", kind="write", pars=[("q", ("U", g))], outs=[("o", "other.{p:q}.txt")]))
+        sp.runto = [u]
+    sc = t3.Scratch()
+    try:
+        impl = t3.run_impl(sc, sp, timeout=40)
+        problems = []
+        if impl["timed_out"] or "all goroutines are asleep" in impl["stderr"]:
+            problems.append(("undrained-port-blocks", "a parameter out-port nobody consumes (%s) was not drained: the run hangs after %d of %d tasks" % (
+                "cut by RunTo" if runto else "unconnected", len(t3.started_keys(impl["trace"])), n)))
+        elif impl["rc"] != 0:
+            problems.append(("unexpected-failure", "exit %s: %s" % (impl["rc"], impl["stderr"][-200:])))
+        else:
+            made = sorted(p for p in t3.data_files(impl["fs"]) if p.endswith(".use"))
+            if len(made) != n:
+                problems.append(("closure-incomplete", "%d of %d tasks of the process that was run produced their output" % (len(made), n)))
+            if any(k.startswith("other") for k in t3.started_keys(impl["trace"])):
+                problems.append(("outside-closure-executed", "a command of a process outside the closure ran"))
+        return {"spec": sp.text(), "bufsize": sp.bufsize, "problems": problems, "ntasks": n, "rc": impl["rc"], "stderr": impl["stderr"][-200:], "yield": None,
+                "wall": impl["wall"], "kind": "lockstep-" + ("runto" if runto else "run")}
+    finally:
+        sc.close()
+
+
 def run(rep, tier, seed):
     proved = vlib.prove(rep, MODULE, THEOREMS)
     ok, msg = vlib.build_ocaml()
@@ -113,10 +148,11 @@ def run(rep, tier, seed):
     results = t3.run_many(unconnected_case, [(seed, i) for i in range(n)])
     results += t3.run_many(runto_case, [(seed, i) for i in range(n)])
     results += t3.run_many(drain_case, [(seed, i) for i in range(n // 4)])
+    results += t3.run_many(lockstep_case, [(seed, i) for i in range(n // 5)])
     t3.report_t3(rep, MODULE, proved, results, "T3 unconnected ports / RunTo")
     rep.cov["evaluations"] = len(results)
     rep.cov["distinct_nontrivial"] = len({r["spec"] for r in results})
-    rep.cov["rule"] = "unconnected: a random workflow in which one in-port loses its connection or one extra parameter port is created and never connected -- must exit non-zero, execute no command, create no file; RunTo: random workflows run to 1-2 random target processes by name, by regular expression or by process value, plus FromStr feeders longer than the buffer upstream of the target -- executed tasks and files must be exactly those of the upstream closure as computed by the reference evaluator; drain: a dangling file out-port and an unread parameter source together, one of them longer than the buffer after the other has closed -- the run must complete; every case distinct"
+    rep.cov["rule"] = "unconnected: a random workflow in which one in-port loses its connection or one extra parameter port is created and never connected -- must exit non-zero, execute no command, create no file; RunTo: random workflows run to 1-2 random target processes by name, by regular expression or by process value, plus FromStr feeders longer than the buffer upstream of the target -- executed tasks and files must be exactly those of the upstream closure as computed by the reference evaluator; drain: a dangling file out-port and an unread parameter source together, one of them longer than the buffer after the other has closed -- the run must complete; lock-step: a component emitting a parameter and a file alternately, the parameters unconsumed or cut off by RunTo, more pairs than the buffer holds -- all tasks of the process that is run must execute; every case distinct"
     rep.cov["samples"] = [results[0]["spec"], results[-1]["spec"]]
     kinds = {}
     for r in results:
